@@ -15,7 +15,7 @@
 //! `k > BITS(exponent)` is outside the quantifier (index panic) and is never generated.
 
 mod gens;
-mod model;
+pub mod model;
 pub mod moduli;
 mod surface;
 
@@ -33,7 +33,7 @@ use vmodel::*;
 pub fn spec() -> PropSpec {
     PropSpec {
         id: "C09",
-        rule: "cases: odd modulus m (classes 1, 3, 2^B-1, 2^(B-1)+1, ~R/3, ~R/4, small prime, zero high limbs, 2^B-c, top-limb edge, random odd, R/4<=m<R/2, chosen leading-zero count 0..=63+, m>=R/2; 17 compile-time moduli) x base in {0, 1, m-1, (m+1)/2, m-2, random<m, value>=m for fixed-width new} x exponent shapes {0, 1, 2^j, all-ones, K, P, T, L, U, sparse windows, repeated nibble} of a width equal / narrower / wider than the base x bit bound k in 0..=BITS(exponent) (boundary list 0,1,3,4,5,63,64,65,BITS-1,BITS; neighbourhoods of multiples of 4 and 64; bitlen(e)+-1; uniform; every k for the allk sub-checks); multi-exponentiation with 1..=5 terms (array and slice forms); lincomb with 1..=40 terms, term count biased to j*2^lz+{-1,0,1}, residues biased to m-1; boxed pow-double-reduction: m in [0.42R,0.495R], 12-bit exponent found by an oracle-side model search of the almost-Montgomery ladder so that the accumulator leaves the loop >= 2m. Each case runs every API form (inherent, PowBoundedExp, Pow, MultiExponentiate(BoundedExp), Monty-generic, const/dyn/boxed conversions) against one BigUint oracle value and requires retrieve()==oracle and as_montgomery()<m. non-trivial: pow / multi-exp: (some) base mod m not in {0,1} AND (k%4 != 0 OR k > 64 OR e mod 2^k has >= 2 non-zero 4-bit windows) [allk sub-checks: base mod m not in {0,1} AND e != 0, every k is run]; pow-double-reduction: the model search found an exponent with final accumulator >= 2m; lincomb: term count > 2^min(lz,63) (more than one accumulation window) OR (>= 2 terms AND exact sum of products >= m). distinct by (m, bases, exponents, k) resp. (m, all terms). surface/* sub-checks (API-surface audit): the same generators, oracle and rules at 3, 5, 6, 7 limbs (bases) and 3, 5, 7 limbs (exponents), 4 more compile-time moduli, 7-term arrays, parameter sets / bases that went through constant-time selection against a decoy modulus, linear combinations over equivalent but separately built parameter sets; the documented panic of lincomb_vartime on an empty list counts as non-trivial.",
+        rule: "cases: odd modulus m (classes 1, 3, 2^B-1, 2^(B-1)+1, ~R/3, ~R/4, small prime, zero high limbs, 2^B-c, top-limb edge, random odd, R/4<=m<R/2, chosen leading-zero count 0..=63+, m>=R/2; 17 compile-time moduli) x base in {0, 1, m-1, (m+1)/2, m-2, random<m, value>=m for fixed-width new} x exponent shapes {0, 1, 2^j, all-ones, K, P, T, L, U, sparse windows, repeated nibble} of a width equal / narrower / wider than the base x bit bound k in 0..=BITS(exponent) (boundary list 0,1,3,4,5,63,64,65,BITS-1,BITS; neighbourhoods of multiples of 4 and 64; bitlen(e)+-1; uniform; every k for the allk sub-checks); multi-exponentiation with 1..=5 terms (array and slice forms); lincomb with 1..=40 terms, term count biased to j*2^lz+{-1,0,1}, residues biased to m-1; boxed pow-double-reduction: m in [0.42R,0.495R], 12-bit exponent found by an oracle-side model search of the almost-Montgomery ladder so that the accumulator leaves the loop >= 2m. Each case runs every API form (inherent, PowBoundedExp, Pow, MultiExponentiate(BoundedExp), Monty-generic, const/dyn/boxed conversions) against one BigUint oracle value and requires retrieve()==oracle and as_montgomery()<m. non-trivial: pow / multi-exp: (some) base mod m not in {0,1} AND (k%4 != 0 OR k > 64 OR e mod 2^k has >= 2 non-zero 4-bit windows) [allk sub-checks: base mod m not in {0,1} AND e != 0, every k is run]; pow-double-reduction: the model search found an exponent with final accumulator >= 2m; lincomb: term count > 2^min(lz,63) (more than one accumulation window) OR (>= 2 terms AND exact sum of products >= m). distinct by (m, bases, exponents, k) resp. (m, all terms). surface/* sub-checks (API-surface audit): the same generators, oracle and rules at 3, 5, 6, 7 limbs (bases) and 3, 5, 7 limbs (exponents), 4 more compile-time moduli, 7-term arrays, parameter sets / bases that went through constant-time selection against a decoy modulus, linear combinations over equivalent but separately built parameter sets; the documented panic of lincomb_vartime on an empty list counts as non-trivial. Since seeding round 4: boxed pow-late-zero (m = p^k c with one leading zero bit, base = p c beta, exponent 0x10|i2: the result is 0 mod m through the last window only, accumulator ends on exactly 0, m or 2m); every boxed pow result is also used as an operand (r+1, -r, r-r, 2r).",
         assumptions: vec![
             "num-bigint modpow / mul / rem are correct (independent implementation)".into(),
             "bridging uses from_words/as_words only; moduli enter through Odd::new / impl_modulus!".into(),
@@ -104,7 +104,19 @@ impl Verd {
                 // trait accessor: the inherent one carries a debug assertion of its own
                 let mont = bl(<BoxedMontyForm as Monty>::as_montgomery(&r));
                 let retr = bl(&total(&format!("{what}: retrieve"), || r.retrieve())?);
-                self.check(what, x, &mont, &retr, true)
+                self.check(what, x, &mont, &retr, true)?;
+                // the result as an operand of further arithmetic (a value that is not canonical is
+                // wrong there even when retrieve() is right, and trips operand assertions in the
+                // checked profile)
+                let fu = total(&format!("{what}: arithmetic on the result (r + 1, -r, r - r, 2r)"), || {
+                    let one = BoxedMontyForm::one(r.params().clone());
+                    (bbig(&(&r + &one).retrieve()), bbig(&(-&r).retrieve()), bbig(&(&r - &r).retrieve()), bbig(&r.double().retrieve()))
+                })?;
+                let m = &x.m;
+                let w = &x.want % m;
+                let expect = ((&w + 1u32) % m, (m - &w) % m, BigUint::zero(), (&w * 2u32) % m);
+                vensure!(fu == expect, "{what}: arithmetic on the result: (r + 1, -r, r - r, 2r) = ({:x}, {:x}, {:x}, {:x}), want ({:x}, {:x}, {:x}, {:x}); modulus {:x}", fu.0, fu.1, fu.2, fu.3, expect.0, expect.1, expect.2, expect.3, m);
+                Ok(())
             }
             Err(p) => {
                 // F-08 in the checked profile: BoxedMontyForm::pow_bounded_exp's own debug assertion
@@ -829,6 +841,64 @@ fn boxed_pow_double_reduction(max: usize) -> impl Fn(&mut Tape, &mut Case) -> Ca
     }
 }
 
+/// Exponentiation whose result is 0 (mod m) only because of the LAST window: m = p^k * c with one
+/// leading zero bit, base = p * c * beta, exponent = 0x10 | i2 with 16 + i2 >= k > 16. All earlier
+/// ladder values are non-zero residues; the final product is a multiple of m, so an almost-reduced
+/// accumulator ends on exactly 0, m or 2m — the boundary values of the final conditional subtractions.
+fn boxed_pow_late_zero(max: usize) -> impl Fn(&mut Tape, &mut Case) -> CaseResult {
+    move |t, c| {
+        let n = match t.weighted(&[6, 2, 1]) {
+            0 => t.usize_in(1, 4),
+            1 => t.usize_in(5, 9),
+            _ => t.usize_in(10, max),
+        };
+        let p = BigUint::from(t.pick(&[3u32, 5, 7]));
+        let k = t.range(17, 22) as u32;
+        let pk = num_traits::pow(p.clone(), k as usize);
+        // m = p^k * c in [0.42 R, 0.495 R): choose the target, divide, make c odd and coprime to p
+        let r = pow2(64 * n as u64);
+        let lo = (&r * 42u32) / 100u32;
+        let span = (&r * 7u32) / 100u32;
+        let target = lo + big(&t.expand(n)) % span;
+        let mut cfac = &target / &pk;
+        if !cfac.bit(0) {
+            cfac += 1u32;
+        }
+        while (&cfac % &p).is_zero() {
+            cfac += 2u32;
+        }
+        let m = &pk * &cfac;
+        if m.bits() != 64 * n as u64 - 1 {
+            c.skip();
+            return Ok(());
+        }
+        let ml = limbs_exact(&m, n);
+        let beta = big(&t.expand(n)) | BigUint::one();
+        let base = (&p * &cfac * beta) % &m;
+        let i2 = t.range((k - 16) as u64, 15);
+        let e = 0x10 | i2;
+        let el = vec![e];
+        c.limbs("m", &ml);
+        c.limbs("base", &limbs_of(&base, n));
+        c.limbs("exponent", &el);
+        c.label("late zero: base^e = 0 (mod m) through the last window only");
+        c.label(if n <= 4 { "boxed 1..=4 limbs" } else if n <= 16 { "boxed 5..=16 limbs" } else { "boxed 17 limbs" });
+        let want = opow(&base, &big(&el), 64, &m);
+        c.nontrivial(want.is_zero() && !base.is_zero());
+        let x = Expect::new(&m, want, n, false);
+        let mut v = Verd::default();
+        boxed_pow_forms(&mut v, &x, &ml, &base, &el, 8, false, true)?;
+        let bparams = total("BoxedMontyParams::new", || BoxedMontyParams::new(odd_b(&ml)))?;
+        let bx = total("BoxedMontyForm::new", || BoxedMontyForm::new(b_of(&base, n), bparams))?;
+        let be = boxed(&el);
+        for k2 in [5u64, 6, 12, 64] {
+            let x2 = Expect::new(&m, opow(&base, &big(&el), k2, &m), n, false);
+            v.boxed(&format!("BoxedMontyForm::pow_bounded_exp(k={k2})"), &x2, || bx.pow_bounded_exp(&be, k2 as u32))?;
+        }
+        v.finish()
+    }
+}
+
 // ------------------------------------------------------------------------------------------------
 
 macro_rules! dyn_pow {
@@ -899,6 +969,7 @@ fn subchecks(_ctx: &Ctx) -> Vec<SubCheck> {
     v.push(SubCheck::new("boxed/pow-allk/1..=17", 3600, boxed_allk(17)).tape(2 * (2 * 17 + 2 + 50)).thorough(10));
     v.push(SubCheck::new("boxed/lincomb/1..=17", 30000, boxed_lincomb(17)).tape(2 * (17 + 30 + 40 * 6)));
     v.push(SubCheck::new("boxed/pow-double-reduction/1..=17", 6000, boxed_pow_double_reduction(17)).tape(24).thorough(10));
+    v.push(SubCheck::new("boxed/pow-late-zero/1..=17", 4000, boxed_pow_late_zero(17)).tape(48).thorough(10));
     // API-surface audit (/verif/audit/E.md): appended last so that existing sub-check indices stay stable
     v.extend(surface::subchecks());
     v
